@@ -57,6 +57,8 @@ def cases(rng, tier):
                     'dt': [rng.choice([0.0, 0.05, -0.1, 0.2]), rng.choice([0.0, 0.1, -0.05, 0.3])], 'steps': rng.choice([1, 1, 2, 3]),
                     'Dmax': rng.choice([1, 2, 3]), 'sectors': rng.random() < 0.7,
                     'sdtype': 'real' if rng.random() < 0.35 else 'complex'})
+        if rng.random() < 0.15:
+            out[-1]['hmag'] = rng.choice([-24, -27, 10])
     SR.mark_replay(out, {'quick': 24, 'thorough': 120, 'search': 0}[tier], 'steps')
     return out
 
@@ -80,6 +82,10 @@ def impl(case):
     dt = complex(case['dt'][0], case['dt'][1])
     if dt == 0:
         dt = 0.1j
+    if case.get('hmag'):
+        # magnitude regime: Hamiltonian times 2^hmag, time step divided by it (exact): the same evolution
+        H.A[0] = H.A[0] * 2.0 ** case['hmag']
+        dt = dt / 2.0 ** case['hmag']
     Hd = G.mpo_dense(H.A)
     hn = float(np.linalg.norm(Hd, 2))
     if abs(dt) * hn * case['steps'] > 1.5:
